@@ -56,7 +56,10 @@ class C08(Prop):
     design_ref = "DESIGN.md §6 C08"
     # translator tie (DESIGN II.7): src/scheduler.rs itself — TaskHandle's two Subscription impls and the poll functions of
     # Remote / OnceTask / FutureTask / RepeatTask, regenerated from the compiler-expanded source on every run
-    tie_modules = {"RxModel.GenTie.Scheduler": [],
+    tie_modules = {
+        # from_stream(_result) / from_future(_result): what is scheduled, the driver polls = streamSpec / tryStreamSpec
+        "RxModel.GenTie.AsyncSources": [],
+"RxModel.GenTie.Scheduler": [],
                    # interval / interval_at / timer / timer_at: what `actual_subscribe` schedules, the tick and task functions
                    "RxModel.GenTie.TimeSources": [],
                    # … and those scheduling events ARE the scheduling calls of the world model (TW.subscribeSource, runTick)
